@@ -43,7 +43,7 @@ pub open spec fn offer_ok(b: TransactionBuilder, avail: Seq<&TransactionUnspentO
 /// offer; they left the pool and nothing else did; the builder is the old one with exactly these inputs added (nothing else touched); the
 /// running totals moved in step: its[k+1] = its[k] + amount of the k-th pick, ots[k+1] = ots[k] + the marginal fee of the k-th pick
 #[verifier::opaque]
-pub open spec fn sel_trace(b0: TransactionBuilder, b1: TransactionBuilder, avail: Seq<&TransactionUnspentOutput>, idx0: Seq<usize>, idx1: Set<usize>,
+pub open spec fn sel_trace(b0: TransactionBuilder, b1: TransactionBuilder, avail: Seq<&TransactionUnspentOutput>, idx0: Set<usize>, idx1: Set<usize>,
     it0: Value, it1: Value, ot0: Value, ot1: Value, picked: Seq<usize>, its: Seq<Value>, ots: Seq<Value>) -> bool {
     let pu = picked_utxos(avail, picked);
     &&& picked.no_duplicates()
@@ -70,11 +70,11 @@ pub open spec fn lf_post(q: spec_fn(Value) -> Option<BigNum>, avail: Seq<&Transa
 pub open spec fn lf_ok(q: spec_fn(Value) -> Option<BigNum>, b0: TransactionBuilder, b1: TransactionBuilder, avail: Seq<&TransactionUnspentOutput>, idx0: Seq<usize>, idx1: Seq<usize>,
     it0: Value, it1: Value, ot0: Value, ot1: Value) -> bool {
     exists|picked: Seq<usize>, its: Seq<Value>, ots: Seq<Value>|
-        sel_trace(b0, b1, avail, idx0, idx1.to_set(), it0, it1, ot0, ot1, picked, its, ots) && lf_post(q, avail, idx0, it1, ot1, picked, its, ots)
+        sel_trace(b0, b1, avail, idx0.to_set(), idx1.to_set(), it0, it1, ot0, ot1, picked, its, ots) && lf_post(q, avail, idx0, it1, ot1, picked, its, ots)
 }
 pub proof fn lemma_lf_intro(q: spec_fn(Value) -> Option<BigNum>, b0: TransactionBuilder, b1: TransactionBuilder, avail: Seq<&TransactionUnspentOutput>, idx0: Seq<usize>, idx1: Seq<usize>,
     it0: Value, it1: Value, ot0: Value, ot1: Value, picked: Seq<usize>, its: Seq<Value>, ots: Seq<Value>)
-    requires sel_trace(b0, b1, avail, idx0, idx1.to_set(), it0, it1, ot0, ot1, picked, its, ots), lf_post(q, avail, idx0, it1, ot1, picked, its, ots)
+    requires sel_trace(b0, b1, avail, idx0.to_set(), idx1.to_set(), it0, it1, ot0, ot1, picked, its, ots), lf_post(q, avail, idx0, it1, ot1, picked, its, ots)
     ensures lf_ok(q, b0, b1, avail, idx0, idx1, it0, it1, ot0, ot1)
 { }
 
@@ -148,7 +148,7 @@ pub proof fn lemma_lf_final(q: spec_fn(Value) -> Option<BigNum>, av: Seq<&Transa
     }
 }
 /// one more pick keeps the shared bookkeeping
-pub proof fn lemma_trace_step(b0: TransactionBuilder, b_old: TransactionBuilder, b_new: TransactionBuilder, av: Seq<&TransactionUnspentOutput>, idx0: Seq<usize>, idx1_old: Set<usize>, idx1_new: Set<usize>,
+pub proof fn lemma_trace_step(b0: TransactionBuilder, b_old: TransactionBuilder, b_new: TransactionBuilder, av: Seq<&TransactionUnspentOutput>, idx0: Set<usize>, idx1_old: Set<usize>, idx1_new: Set<usize>,
     it0: Value, it_old: Value, it_new: Value, ot0: Value, ot_old: Value, ot_new: Value, picked: Seq<usize>, its: Seq<Value>, ots: Seq<Value>, i: usize)
     requires sel_trace(b0, b_old, av, idx0, idx1_old, it0, it_old, ot0, ot_old, picked, its, ots),
         idx0.contains(i), !picked.contains(i), i < av.len(),
@@ -176,8 +176,8 @@ pub proof fn lemma_trace_step(b0: TransactionBuilder, b_old: TransactionBuilder,
         else { assert(o2[k] == ots.last()); assert(pu2.take(k) =~= pu); }
     }
 }
-pub proof fn lemma_trace_init(b0: TransactionBuilder, av: Seq<&TransactionUnspentOutput>, idx0: Seq<usize>, it0: Value, ot0: Value)
-    ensures sel_trace(b0, b0, av, idx0, idx0.to_set(), it0, it0, ot0, ot0, Seq::empty(), seq![it0], seq![ot0])
+pub proof fn lemma_trace_init(b0: TransactionBuilder, av: Seq<&TransactionUnspentOutput>, idx0: Set<usize>, it0: Value, ot0: Value)
+    ensures sel_trace(b0, b0, av, idx0, idx0, it0, it0, ot0, ot0, Seq::empty(), seq![it0], seq![ot0])
 {
     reveal(sel_trace);
     assert(picked_utxos(av, Seq::<usize>::empty()) =~= Seq::empty());
@@ -189,7 +189,7 @@ pub proof fn lemma_push_contains<T>(s: Seq<T>, x: T)
     assert forall|y: T| s.contains(y) implies s.push(x).contains(y) by { let k = choose|k: int| 0 <= k < s.len() && s[k] == y; assert(s.push(x)[k] == y); }
 }
 
-pub proof fn lemma_trace_avail(b0: TransactionBuilder, b1: TransactionBuilder, av: Seq<&TransactionUnspentOutput>, idx0: Seq<usize>, idx1: Set<usize>,
+pub proof fn lemma_trace_avail(b0: TransactionBuilder, b1: TransactionBuilder, av: Seq<&TransactionUnspentOutput>, idx0: Set<usize>, idx1: Set<usize>,
     it0: Value, it1: Value, ot0: Value, ot1: Value, picked: Seq<usize>, its: Seq<Value>, ots: Seq<Value>, x: usize)
     requires sel_trace(b0, b1, av, idx0, idx1, it0, it1, ot0, ot1, picked, its, ots)
     ensures idx1.contains(x) <==> idx0.contains(x) && !picked.contains(x)
